@@ -213,6 +213,11 @@ class PoolAdapter(Adapter):
                     o[i].set_dtype(NP_DTYPE[d])
                 else:
                     o[i].dtype = NP_DTYPE[d]
+            elif action == "SetFreqHalf":
+                (i,) = args
+                h = o[i]
+                h.frequencies = np.asarray(h.frequencies) / 2
+                h.errors2 = np.asarray(h.errors2) / 4
             elif action == "SetName":
                 i, v = args
                 o[i].name = f"n{v}"
@@ -446,7 +451,7 @@ class PoolAdapter(Adapter):
             bad.append("live")
             det["live"] = {"expected": sorted(live), "observed": sorted(real.keys())}
         v = set(view)
-        if refusal:
+        if refusal and "dtype" in v:
             v.discard("dtype")      # a refused call may already have promoted the dtype (C18) ...
             v.add("dtype_consistent")   # ... but the reported dtype must stay the arrays' dtype
         for i in sorted(live & set(real.keys())):
@@ -549,7 +554,7 @@ class PoolAdapter(Adapter):
             return f"FillHalf/{pos_class(r['bins'], args[1])}/{kind(args[0])}"
         if action in ("CollSum", "CollNormBins", "CollCopyFill"):
             return f"{action}/{kind(1)}/{kind(2)}"
-        if action in ("Copy", "CopyEmpty", "NegRefused", "DivZeroRefused", "SetName", "Drop"):
+        if action in ("Copy", "CopyEmpty", "NegRefused", "DivZeroRefused", "SetName", "Drop", "SetFreqHalf"):
             return f"{action}/{kind(args[0])}"
         return action
 
